@@ -201,12 +201,12 @@ theorem undo_multi_newest_first (resolve : Resolver) (Ts older : Log) (hInv : In
 /-- the decision of `_transactionalUndoRecord` for the newest record of an oid in `T` is the
     property's verdict (the heart of the refinement; `undoRecord` is the model of that method) -/
 theorem undo_record_is_verdict (resolve : Resolver) (newer : Log) (T : Txn) (older : Log)
-    (hInv : Inv (newer ++ T :: older)) (utid : Nat) (S : List Rec)
+    (hInv : Inv (newer ++ T :: older)) (hp : T.packed = false) (utid : Nat) (S : List Rec)
     (hS : StagedOK utid (flat (newer ++ T :: older)) S)
     (oid : Nat) (r : Rec) (k : Nat) (h : Proofs.Undo.newestFor oid T.recs = some (r, k)) :
     undoRecord resolve S (flat (newer ++ T :: older)) r ((flat older).length + k + 1)
       = verdictPayload r (verdictFor resolve (S ++ flat (newer ++ T :: older)) T older oid) :=
-  Proofs.Undo.undoRecord_ctx resolve hInv hS h
+  Proofs.Undo.undoRecord_ctx resolve hInv hp hS h
 
 /-- **reachable_inv.**  Every log reachable from the empty file by ordinary commits and undo
     transactions with growing tids satisfies `Inv`; and `invB` decides `Inv` (used on files read back
@@ -257,6 +257,38 @@ example : dataOf (flat (undoTxn exRes exL 40 [30, 20]).1) 3 = some [1, 5] := by 
 example : dataOf (flat (undoTxn exRes exL 40 [30, 20]).1) 2 = some [0, 20] := by decide
 /-- … oldest first needs the resolver for 3 and fails on nothing else -/
 example : (undoTxn exRes exL 40 [20, 30]).2 = none := by decide
+
+/-- a file as the real packer leaves it (read back from Data.fs by the harness): three packed
+    transactions whose records all carry `prev = 0` although two revisions of objects 0, 1, 2 survive
+    below the pack time (they are back-pointer targets of the undo transaction 40), then the not-packed
+    undo transaction.  It satisfies `Inv`; undoing 40 restores what 30 wrote; 30 itself is refused. -/
+def exPacked : Log :=
+  [⟨40, false, [⟨2, 40, 8, .back 4⟩, ⟨4, 40, 7, .back 0⟩, ⟨0, 40, 6, .back 1⟩, ⟨1, 40, 5, .back 3⟩]⟩,
+   ⟨30, true, [⟨2, 30, 0, .data [1, 20]⟩, ⟨4, 30, 0, .data [0, 7]⟩, ⟨0, 30, 0, .data [0, 6]⟩,
+               ⟨1, 30, 0, .data [0, 5]⟩]⟩,
+   ⟨20, true, [⟨2, 20, 0, .data [1, 26]⟩, ⟨1, 20, 0, .data [0, 4]⟩]⟩,
+   ⟨10, true, [⟨3, 10, 0, .data [1, 26]⟩, ⟨0, 10, 0, .data [0, 2]⟩]⟩]
+
+example : Inv exPacked := (invB_iff exPacked).1 (by decide)
+example : dataOf (flat exPacked) 4 = none := by decide
+example : dataOf (flat (undoTxn exRes exPacked 50 [40]).1) 4 = some [0, 7] := by decide
+example : dataOf (flat (undoTxn exRes exPacked 50 [40]).1) 1 = some [0, 5] := by decide
+example : undoTxn exRes exPacked 50 [30] = (exPacked, some .nonUndoable) := by decide
+
+/-- Interpretation witness ("absent vs absent").  T10 creates object 1; 20 = undo 10 (object gone);
+    30 = undo 20 (back); 40 = undo 10 again (gone again, through another un-creation record).  Undoing
+    20 now is refused although the current state (absent) equals the state 20 wrote (absent): the code
+    decides "equal in effect" on data records only.  `verdictFor` says `refuse` here, the refusal leaves
+    the log unchanged (`undo_fails_atomically`); the correspondence oracle accepts either outcome in
+    exactly this situation (agreed with the coordinator: no sentence of C06 says when an undo must
+    succeed). -/
+def exGrey : Log :=
+  (undoTxn exRes (undoTxn exRes (undoTxn exRes (commitTxn [] 10 [(1, [0, 10])]) 20 [10]).1 30 [20]).1
+    40 [10]).1
+
+example : (exGrey.map (·.tid)) = [40, 30, 20, 10] := by decide
+example : dataOf (flat exGrey) 1 = none := by decide
+example : undoTxn exRes exGrey 50 [20] = (exGrey, some (.failures [1])) := by decide
 
 /-- a packed transaction is refused -/
 example : undoTxn exRes [⟨10, true, [⟨1, 10, 0, .data [0, 10]⟩]⟩] 20 [10]
